@@ -7,7 +7,7 @@ import re
 import re._parser as sre_parse          # type: ignore[import]
 
 from ..cfg import NORMAL, ALL, walk_local
-from ..facts import (cfg_of, call_name, calls_in, targets_of, guard_atoms,
+from ..facts import (runs_only_when, cfg_of, call_name, calls_in, targets_of, guard_atoms,
                      is_attr, is_name, enclosing, local_assigns, kwarg,
                      const_value, strip_await, resolve_local, names_in)
 from ..loader import txt, AnchorError
@@ -639,7 +639,7 @@ def r115(ctx) -> None:
     for r in rets:
         if cfg.dominated_by(r, exist):
             continue
-        if any(cfg.controlled_by(r, t, 't') for t in inbox):
+        if runs_only_when(cfg, r, f"{p} == 'INBOX'", True):
             continue
         # reachable only through (existence check) or (INBOX branch)
         reach = cfg.reach([cfg.entry], avoid=exist, labels=ALL,
